@@ -584,6 +584,32 @@ def int_shim(x=0, *a):
     return builtins.int(x, *a)
 
 
+class _FloatMeta(type):
+    """`float` replacement usable both as a converter and as the second argument of isinstance()"""
+
+    def __instancecheck__(cls, obj):
+        return builtins.isinstance(obj, builtins.float) or builtins.isinstance(obj, SymReal)
+
+    def __call__(cls, x=0.0):
+        return float_shim(x)
+
+
+class FloatType(metaclass=_FloatMeta):
+    pass
+
+
+class _IntMeta(type):
+    def __instancecheck__(cls, obj):
+        return builtins.isinstance(obj, builtins.int) or builtins.isinstance(obj, SymInt)
+
+    def __call__(cls, x=0, *a):
+        return int_shim(x, *a)
+
+
+class IntType(metaclass=_IntMeta):
+    pass
+
+
 class MathShim:
     def __getattr__(self, n):
         return getattr(math, n)
